@@ -1,2 +1,427 @@
-//! Harnesses for property C30 (see /verif/properties.jsonl).
+//! C30 NTS-KE messages are parsed totally, boundedly and round-trip.
+//!
+//! The parsers are `async fn`s over `tokio::io::AsyncRead`. All readers used here are in-memory and
+//! always ready, so the futures complete in the first `poll` with a no-op waker
+//! (`block_on_ready` asserts that).
+//!
+//! Oracles are written from RFC 8915 section 4 / the property text, not from the code:
+//!   * a record is `type(2, top bit = critical) | body length(2) | body`;
+//!   * Error/Warning/Port bodies are exactly one u16, id lists are whole u16s, algorithm
+//!     descriptions whole u16 pairs, fixed keys two halves of equal length, names are UTF-8;
+//!   * an accepted record was completely present in the input and was consumed exactly;
+//!   * re-serialising an accepted record reproduces the consumed bytes (up to the critical bit
+//!     of known types and the ignored bodies of EndOfMessage/KeepAlive) and parses back equal.
 use crate::stubs;
+use ntp_proto::verif::nts::messages::{KeRequest, Response};
+use ntp_proto::verif::nts::record::Record;
+use ntp_proto::verif::nts::{Aead, KeErrorCode, KeWarningCode};
+use std::borrow::Cow;
+use std::future::Future;
+use std::pin::{Pin, pin};
+use std::task::{Context, Poll, Waker};
+use tokio::io::{AsyncRead, ReadBuf};
+
+/// Poll a future once with a no-op waker; every reader/writer in this module is always ready.
+pub fn block_on_ready<F: Future>(fut: F) -> F::Output {
+    let mut fut = pin!(fut);
+    let mut cx = Context::from_waker(Waker::noop());
+    match fut.as_mut().poll(&mut cx) {
+        Poll::Ready(v) => v,
+        Poll::Pending => panic!("in-memory future was not ready at the first poll"),
+    }
+}
+
+/// Loop-free equality of byte strings of at most 12 bytes (keeps the unwinding bound small).
+fn eq_bytes(a: &[u8], b: &[u8]) -> bool {
+    let n = a.len();
+    n == b.len()
+        && n <= 12
+        && (n < 1 || a[0] == b[0])
+        && (n < 2 || a[1] == b[1])
+        && (n < 3 || a[2] == b[2])
+        && (n < 4 || a[3] == b[3])
+        && (n < 5 || a[4] == b[4])
+        && (n < 6 || a[5] == b[5])
+        && (n < 7 || a[6] == b[6])
+        && (n < 8 || a[7] == b[7])
+        && (n < 9 || a[8] == b[8])
+        && (n < 10 || a[9] == b[9])
+        && (n < 11 || a[10] == b[10])
+        && (n < 12 || a[11] == b[11])
+}
+
+fn be16(b: &[u8], at: usize) -> u16 {
+    ((b[at] as u16) << 8) | b[at + 1] as u16
+}
+
+/// Serialise into a fixed buffer (no Vec growth); returns the number of bytes written.
+fn serialize_record(r: &Record<'_>, out: &mut [u8]) -> Option<usize> {
+    let mut cur = std::io::Cursor::new(out);
+    match block_on_ready(r.serialize(&mut cur)) {
+        Ok(()) => Some(cur.position() as usize),
+        Err(e) => {
+            std::mem::forget(e);
+            None
+        }
+    }
+}
+
+
+/// In-memory reader: a 4-byte record header that is always completely available (copied with
+/// concrete lengths, so that a concrete record type stays concrete for the parser's dispatch)
+/// followed by a body of symbolic length. Always ready.
+pub struct HeadBody<'a> {
+    pub head: [u8; 4],
+    pub head_pos: usize,
+    pub body: &'a [u8],
+    pub body_pos: usize,
+}
+/// Append `src` to the read buffer with plain byte stores. (`ReadBuf::put_slice` is a `memcpy`,
+/// which CBMC models with array constraints that hide constants from symbolic execution; then
+/// the record type and length read back by the parser are no longer constants, the dispatch is
+/// not pruned and every read loop unwinds to the bound.)
+fn put_bytes(buf: &mut ReadBuf<'_>, src: &[u8]) {
+    let n = src.len();
+    assert!(n <= buf.remaining());
+    assert!(n <= 8);
+    let dst = buf.initialize_unfilled_to(n);
+    // unrolled by hand: independent of the harness' unwinding bound
+    if n > 0 { dst[0] = src[0]; }
+    if n > 1 { dst[1] = src[1]; }
+    if n > 2 { dst[2] = src[2]; }
+    if n > 3 { dst[3] = src[3]; }
+    if n > 4 { dst[4] = src[4]; }
+    if n > 5 { dst[5] = src[5]; }
+    if n > 6 { dst[6] = src[6]; }
+    if n > 7 { dst[7] = src[7]; }
+    buf.advance(n);
+}
+impl AsyncRead for HeadBody<'_> {
+    fn poll_read(mut self: Pin<&mut Self>, _cx: &mut Context<'_>, buf: &mut ReadBuf<'_>) -> Poll<std::io::Result<()>> {
+        if self.head_pos < 4 {
+            let n = std::cmp::min(4 - self.head_pos, buf.remaining());
+            let p = self.head_pos;
+            put_bytes(buf, &self.head[p..p + n]);
+            self.head_pos += n;
+        } else {
+            let n = std::cmp::min(self.body.len() - self.body_pos, buf.remaining());
+            let p = self.body_pos;
+            put_bytes(buf, &self.body[p..p + n]);
+            self.body_pos += n;
+        }
+        Poll::Ready(Ok(()))
+    }
+}
+
+// -------------------------------------------------------------------------------------------
+// c30_record_*: one record. Concrete per call: record type and critical bit (a symbolic type
+// makes symbolic execution walk all 15 sub-parsers for every input). Symbolic: the announced body
+// length (0..=65535), the body bytes and how many of them are available (0..=NB).
+// Truncated headers: c30_record_short_header.
+fn record_body<const NB: usize>(ty: u16, crit: bool) {
+    let body_bytes: [u8; NB] = kani::any();
+    let size_field: usize = kani::any();
+    let blen: usize = kani::any();
+    kani::assume(blen <= NB && size_field <= 65535);
+    // header bytes are built from the concrete parameters only (kept apart from the symbolic body
+    // so that they stay constants for the parser's dispatch and length handling)
+    let head = [(ty >> 8) as u8 | if crit { 0x80 } else { 0 }, ty as u8, (size_field >> 8) as u8, size_field as u8];
+    let len = 4 + blen;
+    let mut bytes = [0u8; 16];
+    bytes[..4].copy_from_slice(&head);
+    bytes[4..4 + NB].copy_from_slice(&body_bytes);
+    let mut rd = HeadBody { head, head_pos: 0, body: &body_bytes[..blen], body_pos: 0 };
+    let res = block_on_ready(Record::parse(&mut rd));
+    let consumed = rd.head_pos + rd.body_pos;
+    assert!(consumed <= len, "never reads past the input");
+    match res {
+        Err(e) => {
+            // (dropping an `io::Error` walks the drop glue of every `dyn Error` in the program)
+            std::mem::forget(e);
+            kani::cover!(size_field > blen, "rejected: announced body not completely present");
+            // Independent completeness spot checks (RFC 8915): a complete opaque record
+            // (NewCookie, unknown type) is never rejected.
+            if size_field + 4 <= len {
+                assert!(ty != 5 && ty != 11 && ty < 15, "complete opaque record rejected");
+            }
+        }
+        Ok(r) => {
+            let critical = crit;
+            let size = size_field;
+            assert!(4 + size <= len, "accepted a record whose announced body is not completely present");
+            assert!(consumed == 4 + size, "an accepted record is consumed exactly (header + announced body)");
+            let body = &bytes[4..4 + size];
+            // per-type body shape (RFC 8915 section 4.1)
+            match ty {
+                2 | 3 | 7 => assert!(size == 2, "Error/Warning/Port body must be exactly one u16"),
+                1 | 4 | 9 => assert!(size % 2 == 0, "id list body must be whole u16s"),
+                10 => assert!(size % 4 == 0, "algorithm description list must be whole (id,keysize) pairs"),
+                12 => assert!(size % 2 == 0, "fixed key request carries two keys of equal length"),
+                6 | 13 | 14 => assert!(std::str::from_utf8(body).is_ok(), "name bodies must be UTF-8"),
+                _ => {}
+            }
+            // Value checks against the wire bytes. The variant is determined by the (concrete) type;
+            // the value is re-materialised with a constant discriminant so that `serialize` and `==`
+            // below are executed for this one variant only (the discriminant of the parser's result
+            // is opaque to symbolic execution, which would otherwise walk all 15 serialiser arms).
+            macro_rules! bad {
+                () => {{
+                    assert!(false, "record type parsed into the wrong variant");
+                    return;
+                }};
+            }
+            let r: Record<'_> = match ty {
+                0 => match r {
+                    Record::EndOfMessage => Record::EndOfMessage,
+                    other => {
+                        std::mem::forget(other);
+                        bad!()
+                    }
+                },
+                8 => match r {
+                    Record::KeepAlive => Record::KeepAlive,
+                    other => {
+                        std::mem::forget(other);
+                        bad!()
+                    }
+                },
+                7 => match r {
+                    Record::Port { port } => {
+                        assert!(port == be16(body, 0), "port value");
+                        Record::Port { port }
+                    }
+                    other => {
+                        std::mem::forget(other);
+                        bad!()
+                    }
+                },
+                2 => match r {
+                    Record::Error { errorcode } => {
+                        assert!(u16::from(errorcode) == be16(body, 0), "error code value");
+                        Record::Error { errorcode }
+                    }
+                    other => {
+                        std::mem::forget(other);
+                        bad!()
+                    }
+                },
+                3 => match r {
+                    Record::Warning { warningcode } => {
+                        assert!(u16::from(warningcode) == be16(body, 0), "warning code value");
+                        Record::Warning { warningcode }
+                    }
+                    other => {
+                        std::mem::forget(other);
+                        bad!()
+                    }
+                },
+                5 => match r {
+                    Record::NewCookie { cookie_data } => {
+                        assert!(eq_bytes(cookie_data.as_ref(), body), "cookie bytes");
+                        Record::NewCookie { cookie_data }
+                    }
+                    other => {
+                        std::mem::forget(other);
+                        bad!()
+                    }
+                },
+                6 => match r {
+                    Record::Server { name } => {
+                        assert!(eq_bytes(name.as_bytes(), body), "server name bytes");
+                        Record::Server { name }
+                    }
+                    other => {
+                        std::mem::forget(other);
+                        bad!()
+                    }
+                },
+                13 => match r {
+                    Record::NtpServerDeny { denied } => {
+                        assert!(eq_bytes(denied.as_bytes(), body), "denied name bytes");
+                        Record::NtpServerDeny { denied }
+                    }
+                    other => {
+                        std::mem::forget(other);
+                        bad!()
+                    }
+                },
+                14 => match r {
+                    Record::Authentication { key } => {
+                        assert!(eq_bytes(key.as_bytes(), body), "authentication key bytes");
+                        Record::Authentication { key }
+                    }
+                    other => {
+                        std::mem::forget(other);
+                        bad!()
+                    }
+                },
+                12 => match r {
+                    Record::FixedKeyRequest { c2s, s2c } => {
+                        assert!(c2s.len() == size / 2 && s2c.len() == size / 2, "key halves");
+                        assert!(eq_bytes(c2s.as_ref(), &body[..size / 2]) && eq_bytes(s2c.as_ref(), &body[size / 2..]), "key bytes");
+                        Record::FixedKeyRequest { c2s, s2c }
+                    }
+                    other => {
+                        std::mem::forget(other);
+                        bad!()
+                    }
+                },
+                4 => match r {
+                    Record::AeadAlgorithm { algorithm_ids } => {
+                        assert!(algorithm_ids.len() == size / 2, "algorithm id count");
+                        if size >= 2 {
+                            assert!(u16::from(algorithm_ids[0]) == be16(body, 0), "algorithm id value");
+                        }
+                        if size >= 4 {
+                            assert!(u16::from(algorithm_ids[1]) == be16(body, 2), "algorithm id value");
+                        }
+                        Record::AeadAlgorithm { algorithm_ids }
+                    }
+                    other => {
+                        std::mem::forget(other);
+                        bad!()
+                    }
+                },
+                // element types of these three lists are private to ntp-proto: cannot be rebuilt
+                // here; their values are checked through the serialised bytes below
+                1 => match r {
+                    Record::NextProtocol { .. } => r,
+                    other => {
+                        std::mem::forget(other);
+                        bad!()
+                    }
+                },
+                9 => match r {
+                    Record::SupportedNextProtocolList { .. } => r,
+                    other => {
+                        std::mem::forget(other);
+                        bad!()
+                    }
+                },
+                10 => match r {
+                    Record::SupportedAlgorithmList { .. } => r,
+                    other => {
+                        std::mem::forget(other);
+                        bad!()
+                    }
+                },
+                _ => match r {
+                    Record::Unknown { record_type, critical: c, data } => {
+                        assert!(record_type == ty && c == critical && eq_bytes(data.as_ref(), body), "unknown record fields");
+                        Record::Unknown { record_type, critical: c, data }
+                    }
+                    other => {
+                        std::mem::forget(other);
+                        bad!()
+                    }
+                },
+            };
+            // re-serialise: reproduces the consumed bytes and parses back to the same value
+            let mut out = [0u8; 16];
+            let n = serialize_record(&r, &mut out);
+            assert!(n.is_some(), "an accepted record can be serialised");
+            let n = n.unwrap();
+            assert!(be16(&out, 0) & 0x7fff == ty, "record type preserved");
+            if ty == 11 || ty >= 15 {
+                assert!((out[0] & 0x80 != 0) == critical, "critical bit of unknown records preserved");
+            }
+            if ty == 0 || ty == 8 {
+                assert!(n == 4 && be16(&out, 2) == 0, "EndOfMessage/KeepAlive serialise with an empty body");
+            } else {
+                assert!(n == 4 + size, "serialised length equals consumed length");
+                assert!(eq_bytes(&out[2..n], &bytes[2..n]), "serialised length field and body equal the consumed bytes");
+            }
+            // (header bytes rebuilt from the concrete type so that the dispatch stays concrete; their
+            // equality with `out` is asserted above / here)
+            let crit2 = out[0] & 0x80 != 0;
+            let h0 = (ty >> 8) as u8;
+            assert!(out[0] & 0x7f == h0 && out[1] == ty as u8);
+            let mut rd2 = HeadBody { head: [if crit2 { h0 | 0x80 } else { h0 }, ty as u8, out[2], out[3]], head_pos: 0, body: &out[4..n], body_pos: 0 };
+            let back = if crit2 {
+                rd2.head[0] = h0 | 0x80;
+                block_on_ready(Record::parse(&mut rd2))
+            } else {
+                rd2.head[0] = h0;
+                block_on_ready(Record::parse(&mut rd2))
+            };
+            match back {
+                Ok(r2) => {
+                    assert!(r2 == r, "serialise . parse is the identity on accepted records");
+                    std::mem::forget(r2);
+                }
+                Err(e) => {
+                    std::mem::forget(e);
+                    assert!(false, "re-serialised record is rejected");
+                }
+            }
+            assert!(rd2.head_pos + rd2.body_pos == n, "re-parse consumes the whole serialisation");
+            kani::cover!(size == NB || ((ty == 2 || ty == 3 || ty == 7) && size == 2), "accepted a record with the largest body in bounds");
+            kani::cover!(crit, "accepted with the critical bit set");
+            kani::cover!(!crit, "accepted with the critical bit clear");
+            std::mem::forget(r);
+        }
+    }
+}
+
+macro_rules! record_harness {
+    ($name:ident, $ty:expr, $n:expr, $unwind:expr) => {
+        #[kani::proof]
+        #[kani::unwind($unwind)]
+        fn $name() {
+            record_body::<$n>($ty, false);
+            record_body::<$n>($ty, true);
+        }
+    };
+}
+record_harness!(c30_record_00_end_of_message, 0, 8, 14);
+record_harness!(c30_record_01_next_protocol, 1, 4, 4);
+record_harness!(c30_record_02_error, 2, 4, 14);
+record_harness!(c30_record_03_warning, 3, 4, 14);
+record_harness!(c30_record_04_aead_algorithm, 4, 8, 14);
+record_harness!(c30_record_05_new_cookie, 5, 8, 14);
+record_harness!(c30_record_06_server, 6, 4, 14);
+record_harness!(c30_record_07_port, 7, 4, 4);
+record_harness!(c30_record_08_keep_alive, 8, 8, 14);
+record_harness!(c30_record_09_supported_protocols, 9, 8, 14);
+record_harness!(c30_record_10_supported_algorithms, 10, 8, 14);
+record_harness!(c30_record_11_unassigned, 11, 8, 14);
+record_harness!(c30_record_12_fixed_key_request, 12, 8, 14);
+record_harness!(c30_record_13_server_deny, 13, 4, 14);
+record_harness!(c30_record_14_authentication, 14, 4, 14);
+record_harness!(c30_record_15_unknown_low, 15, 8, 14);
+record_harness!(c30_record_7fff_unknown_high, 0x7fff, 8, 14);
+record_harness!(c30_record_4d2_unknown_mid, 0x04d2, 8, 14);
+
+/// Truncated headers (0..=3 bytes available): always an error, nothing beyond the input consumed.
+#[kani::proof]
+#[kani::unwind(8)]
+fn c30_record_short_header() {
+    let bytes: [u8; 3] = kani::any();
+    let mut len = 0;
+    while len < 4 {
+        let mut rd: &[u8] = &bytes[..len];
+        let res = block_on_ready(Record::parse(&mut rd));
+        assert!(res.is_err(), "accepted a record without a complete header");
+        len += 1;
+    }
+}
+
+
+#[kani::proof]
+#[kani::unwind(4)]
+fn probe_port_min() {
+    let body_bytes: [u8; 4] = kani::any();
+    let size_field: usize = kani::any();
+    let blen: usize = kani::any();
+    kani::assume(blen <= 4 && size_field <= 65535);
+    let head = [0x80, 7, (size_field >> 8) as u8, size_field as u8];
+    let mut rd = HeadBody { head, head_pos: 0, body: &body_bytes[..blen], body_pos: 0 };
+    let res = block_on_ready(Record::parse(&mut rd));
+    match res {
+        Ok(r) => {
+            assert!(size_field == 2 && blen >= 2);
+            std::mem::forget(r);
+        }
+        Err(e) => std::mem::forget(e),
+    }
+}
